@@ -99,11 +99,12 @@ CHECKS = {
         text="Lean theorems C08_wellformed, C08_sibling_scopes_distinct, C08_children(+_ordered), C08_partition, C08_lookup_first, C08_reopen_continues about the abstract parent-pointer "
              "specification, for every balanced sequence of scope / flattened scope / var / pop operations; C08_builder_refines_spec / C08_walk_refines (Proofs/HierRefine.lean): for every such sequence the pointer-level "
              "model of HierarchyBuilder does not panic and its node arrays, child / next / parent links, scope stack (sentinel, flattened entries, cached last children, find_duplicate_scope / find_last_child on re-opening) "
-             "represent exactly the specification's node list, so the item iterator of the top level and of every scope yields the specification's children in declaration order, each once, with the declared name / signal / parent. The pointer-level Lean model of HierarchyBuilder (child/next/parent links, scope stack, "
+             "represent exactly the specification's node list, so the item iterator of the top level and of every scope yields the specification's children in declaration order, each once, with the declared name / signal / parent; "
+             "C08_full_names (full_name of every scope / variable = the dotted path of ancestor names) and C08_lookups (lookup_scope / lookup_var / lookup_var_with_index return the first declared item the specification designates) for every represented state. The pointer-level Lean model of HierarchyBuilder (child/next/parent links, scope stack, "
              "find_last_child) and the real code are compared with the specification on ALL operation sequences of length <= 6 over 7 operations, ALL sequences of length <= 6 over a second alphabet with same-named variables of different bit index, plus long random sequences; the reply covers "
              "items(), vars()/scopes(), full names, lookup_scope / lookup_var / lookup_var_with_index on present and absent paths, iter_vars/iter_scopes, the signal table and first_scope.",
         design_ref="DESIGN.md section 5 / C08",
-        note="The refinement pointer-level model = specification IS a theorem (C08_builder_refines_spec) for the tree structure, names, signals and parents; full_name strings and the lookup functions of the pointer-level model are compared with the specification (exhaustive enumeration to length 6, 7 in the thorough tier, random sequences to length 200), as is the real code. "
+        note="The refinement pointer-level model = specification IS a theorem (C08_builder_refines_spec) for the tree structure, names, signals, parents, full_name and the three lookup functions; the signal table (handle_to_node / num_unique_signals) of the pointer-level model and the real code itself are compared with the specification (exhaustive enumeration to length 6, 7 in the thorough tier, random sequences to length 200). "
              "Hierarchies built by the three loaders are covered through the C09/C10/C11/C14 file-level dumps. HashMap / Vec are trusted.",
     ),
     "C09": dict(
